@@ -339,7 +339,9 @@ def bounded(pr):
     from . import native
     import random
     rng = random.Random(pr.seed)
-    names = ['3SGB-subset', '1HPX'] if pr.tier == 'quick' else ['3SGB-subset', '1HPX', '3SGB', '1FTJ-Chain-A', '4DFR']
+    # conf-alt-AB / conf-model-missing-atoms: alternate locations / models that need the atom top-up (multi-conformation code paths)
+    names = ['3SGB-subset', '1HPX', 'conf-alt-AB', 'conf-model-missing-atoms'] if pr.tier == 'quick' else \
+        ['3SGB-subset', '1HPX', 'conf-alt-AB', 'conf-model-missing-atoms', 'conf-alt-BC', '3SGB', '1FTJ-Chain-A', '4DFR']
     ev, viol, classes = 0, [], set()
     for name in names:
         base = native.pdb_lines(name)
@@ -358,7 +360,7 @@ def bounded(pr):
             for l in base:
                 if l[:6] in ('ATOM  ', 'HETATM'):
                     l = l.rstrip('\n').ljust(80)
-                    l = (l[:6] + '%5d' % rng.randrange(1, 99999) + l[11:54] + '%6.2f%6.2f' % (rng.random(), rng.random() * 90)
+                    l = (l[:6] + '%5d' % (rng.randrange(1, 99999) if rng.random() < 0.9 else -rng.randrange(1, 9999)) + l[11:54] + '%6.2f%6.2f' % (rng.random(), rng.random() * 90)
                          + l[66:72] + 'SEG ' + rng.choice([' H', ' C', 'XX']) + rng.choice(['1+', '  ', '2-']) + '\n')
                 cols.append(l)
             yield 'random serial/occupancy/B/segment/element/charge columns', cols, []
